@@ -194,6 +194,30 @@ def fractional_cff_font():
     fb.setupHorizontalHeader(ascent=800, descent=-200); fb.setupNameTable({"familyName": "Frac17", "styleName": "R"}); fb.setupOS2(); fb.setupPost()
     return fb.font
 
+MARK_TEXTS = ["a\u0301", "a\u0323", "i\u0301", "i\u0323", "o\u0323\u0301", "ai\u0323", "i\u0323a\u0301"]
+def mark_font():
+    """mark-to-base attachment with two mark classes; some base glyphs have NO anchor for the first class (a None at the head of the row)"""
+    from fontTools.fontBuilder import FontBuilder
+    from fontTools.feaLib.builder import addOpenTypeFeaturesFromString
+    from props.C07 import _box
+    order = [".notdef", "a", "i", "o", "acutecomb", "dotbelowcomb"]
+    fb = FontBuilder(1000, isTTF=True); fb.setupGlyphOrder(order)
+    fb.setupCharacterMap({0x61: "a", 0x69: "i", 0x6F: "o", 0x301: "acutecomb", 0x323: "dotbelowcomb"})
+    adv = {"a": 520, "i": 260, "o": 540, "acutecomb": 0, "dotbelowcomb": 0, ".notdef": 500}
+    fb.setupGlyf({g: _box(max(adv[g], 100)) for g in order}); fb.setupHorizontalMetrics({g: (adv[g], 20) for g in order})
+    fb.setupHorizontalHeader(ascent=800, descent=-200); fb.setupNameTable({"familyName": "Marks17", "styleName": "R"}); fb.setupOS2(); fb.setupPost()
+    addOpenTypeFeaturesFromString(fb.font, """
+        markClass acutecomb <anchor 101 603> @TOP;
+        markClass dotbelowcomb <anchor 93 -21> @BOT;
+        feature mark {
+            pos base a <anchor 251 507> mark @TOP <anchor 243 -33> mark @BOT;
+            pos base i <anchor NULL> mark @TOP <anchor 131 -35> mark @BOT;
+            pos base o <anchor 271 513> mark @TOP <anchor NULL> mark @BOT;
+        } mark;
+        feature kern { pos a i -37; pos i a 23; } kern;
+    """)
+    return fb.font
+
 def glyph_rule_font(rng):
     """a generated font whose contextual lookups are written with single glyphs only, several rules per lookup, so that the
     builder picks the glyph-based formats (Context/ChainContext Subst/Pos format 1) whose rule sets are parallel to a Coverage"""
@@ -295,7 +319,7 @@ def sweeps(tier, rng):
                     bad = None if "post" in str(e).lower() else "reorderGlyphs raised %r" % (e,)
                 yield ((label, "reorder", mode), bad)
     def run_scale():
-        fonts = [(corpus.rel(p), None, p) for p in _fonts(rng, nf)] + [("generated-variable-no-HVAR", variable_test_font(), None), ("generated-CFF-fractional-operands", fractional_cff_font(), None)]
+        fonts = [(corpus.rel(p), None, p) for p in _fonts(rng, nf)] + [("generated-variable-no-HVAR", variable_test_font(), None), ("generated-CFF-fractional-operands", fractional_cff_font(), None), ("generated-marks-without-class0-anchor", mark_font(), None)]
         for label, fobj, path in fonts:
             for new_upem_f in (F(2), F(1, 2), F(2048, 1000)):
                 try:
@@ -354,6 +378,19 @@ def sweeps(tier, rng):
                         if f2["head"].unitsPerEm != new_upem: bad = "unitsPerEm not updated"
                         # unrelated things stay
                         if (f2.getBestCmap() or {}) != (f0.getBestCmap() or {}): bad = "character map changed by scaling"
+                    if bad is None and "fvar" not in f0:
+                        # positioning: the same glyphs, every advance and offset scaled (an offset is the difference of two rounded anchors)
+                        cps = sorted((f0.getBestCmap() or {}).keys())
+                        texts = list(MARK_TEXTS) if label == "generated-marks-without-class0-anchor" else []
+                        if cps: texts += ["".join(chr(rng.choice(cps)) for _ in range(rng.randint(2, 5))) for _ in range(6)]
+                        h0 = HBFont(data0, order); h1 = HBFont(data1, order)
+                        for t in texts:
+                            s0 = h0.shape(t); s1 = h1.shape(t)
+                            if [x[0] for x in s0] != [x[0] for x in s1]: bad = "text %r shapes to other glyphs after scaling: %r -> %r" % (t, s0, s1); break
+                            for x, y in zip(s0, s1):
+                                if any(abs(q - p * float(fac)) > 2.1 for p, q in zip(x[1:], y[1:])):
+                                    bad = "text %r: positions %r scaled by %s became %r" % (t, x, fac, y); break
+                            if bad: break
                 except NotImplementedError:
                     bad = None
                 except Exception as e:
